@@ -106,7 +106,17 @@ def cases(seed, tier):
             prof = gen.rand_profile(rng, allow_odd=True)
         prof['banner'] = banner
         c = {'product': product, 'version': version, 'profile': prof, 'opts': rng.choice([[], ['-n'], ['-b'], ['-v']]), 'pseed': rng.getrandbits(32)}
-        if rng.random() < 0.15:
+        r2 = gen.case_rng(seed, ID, i, 'client')
+        if r2.random() < 0.12:
+            # a client audit; in half of them the client's two directions differ (what is listed, rated and recommended about must be one and the same list)
+            c['role'] = 'client'
+            prof.pop('keys', None)
+            prof.pop('pre', None)
+            if r2.random() < 0.5:
+                for cat in r2.choice([['enc'], ['mac'], ['enc', 'mac']]):
+                    pool = [n for n in gen.db_names(cat) if not n.endswith('-*')]
+                    prof[cat + '_s2c'] = r2.sample(pool, r2.randrange(1, 6))
+        elif rng.random() < 0.15:
             c['faults'] = [{'conn': rng.randrange(1, 8), 'msg': rng.choice(['reply', 'group', 'kexinit']), 'kind': rng.choice(['truncate_close', 'garbage', 'truncate_stall']), 'off': 4, 'n': 40}]
         yield c
 
@@ -188,8 +198,11 @@ def run_case(case, ctx):
     product, version = case['product'], case['version']
     res = {}
     for isjson in (False, True):
-        argv = (['-j'] if isjson else list(case['opts'])) + ['--skip-rate-test', '-t', '2', 'srv.example:2222']
-        rec = ctx.run(gen.server_plan(case['pseed'], argv, prof, port=2222, faults=case.get('faults')))
+        if case.get('role') == 'client':
+            rec = ctx.run(gen.client_plan(case['pseed'], (['-j'] if isjson else list(case['opts'])) + ['-c', '-p', '2222', '-t', '4'], prof, port=2222))
+        else:
+            argv = (['-j'] if isjson else list(case['opts'])) + ['--skip-rate-test', '-t', '2', 'srv.example:2222']
+            rec = ctx.run(gen.server_plan(case['pseed'], argv, prof, port=2222, faults=case.get('faults')))
         if rec.get('harness_error'):
             return {'violations': [], 'keys': []}
         if rec['status'] not in (0, 2, 3):
@@ -206,6 +219,11 @@ def run_case(case, ctx):
     if tset != jset:
         out.append(viol('C13 text and JSON recommend different things', 'only text: %r\nonly json: %r' % ([x for x in tset if x not in jset][:8], [x for x in jset if x not in tset][:8])))
     advertised = {cat: [wire.shown(x) for x in prof.get(cat, [])] for cat in CATS}
+    if case.get('role') == 'client':
+        # the lists a client audit shows are the server-to-client ones
+        for cat in ('enc', 'mac'):
+            if prof.get(cat + '_s2c') is not None:
+                advertised[cat] = [wire.shown(x) for x in prof[cat + '_s2c']]
     for isjson, (notes, recs, texts) in res.items():
         view = 'json' if isjson else 'text'
         signs = {}
